@@ -48,11 +48,15 @@ pub fn t021(n: usize) -> String { use std::collections::{HashMap, HashSet}; let 
 pub fn t022(n: usize) -> String { use std::collections::{BTreeMap, BTreeSet}; let mut m: BTreeMap<usize, &str> = BTreeMap::new(); m.insert(5, "five"); m.insert(n, "n"); m.insert(2, "two"); let keys: Vec<usize> = m.keys().copied().collect(); let vals: Vec<&str> = m.values().copied().collect(); let first = m.iter().next().map(|(k, v)| format!("{}{}", k, v)); let s: BTreeSet<char> = "hello".chars().collect(); let t: String = s.iter().collect(); let idx = m[&5]; format!("{}|{}|{}|{}{}{}", j(&keys), vals.concat(), o(first), t, idx, o(m.get(&9).copied())) }
 pub fn t023(a: &str) -> String { use std::collections::HashMap; use std::sync::LazyLock; static TABLE: LazyLock<HashMap<&'static str, u32>> = LazyLock::new(|| [("one", 1), ("two", 2), ("hundred", 100)].into_iter().collect()); static WORDS: LazyLock<Vec<String>> = LazyLock::new(|| vec!["x".to_string(), "y".repeat(2)]); let total: u32 = a.split(' ').filter_map(|w| TABLE.get(w)).sum(); format!("{}{}{}{}", total, TABLE.len(), WORDS[1], TABLE.contains_key(a)) }
 
+pub fn t024(a: &str) -> String { use std::borrow::Cow; fn norm(w: &str) -> Cow<'_, str> { if w.chars().any(|c| c.is_uppercase()) { Cow::Owned(w.to_lowercase()) } else { Cow::Borrowed(w) } } let c = norm(a); let owned = matches!(c, Cow::Owned(_)); let l = c.len(); let e = c == "été b"; let st = c.starts_with("o"); let s: String = c.clone().into_owned(); let d: Cow<str> = Cow::from("x"); let mut m = norm(a); m.to_mut().push('!'); format!("{}{}{}{}{}{}{}{}", c, owned, l, e, st, s.len(), d, m) }
+pub fn t025(a: &str) -> String { let c = a.chars().next().unwrap_or('x'); let up = c.to_uppercase().to_string(); let lo = c.to_lowercase().next(); let first_upper: String = a.chars().take(1).flat_map(char::to_uppercase).chain(a.chars().skip(1)).collect(); let n = a.chars().rev().position(|c| c == ' '); let t = a.trim_start_matches(char::is_numeric).trim_end_matches(|c: char| !c.is_alphabetic()); let ci: Vec<usize> = a.char_indices().rev().filter(|(_, c)| *c == 'e').map(|(i, _)| i).collect(); format!("{}{}{}{}{}{}", up, o(lo), first_upper, o(n), t, j(&ci)) }
+pub fn t026(n: usize) -> String { use std::rc::Rc; let shared = Rc::new(vec![1usize, n]); let other = Rc::clone(&shared); let s: usize = shared.iter().sum::<usize>() + other.len(); let fl = [1.5f64, -0.5, n as f64]; let mx = fl.iter().cloned().fold(f64::NEG_INFINITY, f64::max); let mut sorted = fl.to_vec(); sorted.sort_by(|a, b| a.partial_cmp(b).unwrap()); let tot: f64 = fl.iter().sum(); format!("{}{}{}{}{}", s, mx, j(&sorted), tot, Rc::strong_count(&shared) > 1) }
+
 pub fn all() -> Vec<(&'static str, String)> {
     let mut out = Vec::new();
     macro_rules! s { ($($f:ident),*) => { $( for (k, a) in ["2.7", "one hundred and one", "", "1.x", "été b"].iter().enumerate() { out.push((concat!(stringify!($f)), format!("{}:{}", k, $f(a)))); } )* } }
     macro_rules! n { ($($f:ident),*) => { $( for a in [0usize, 1, 3, 6] { out.push((concat!(stringify!($f)), format!("{}:{}", a, $f(a)))); } )* } }
-    n!(t001, t002); s!(t003); n!(t004, t005, t006, t007, t008, t009, t010); s!(t011, t012, t013, t014); n!(t015, t016, t017, t018, t019, t020, t021, t022); s!(t023);
+    n!(t001, t002); s!(t003); n!(t004, t005, t006, t007, t008, t009, t010); s!(t011, t012, t013, t014); n!(t015, t016, t017, t018, t019, t020, t021, t022); s!(t023, t024, t025); n!(t026);
     out
 }
 #[cfg(test)]
